@@ -4,3 +4,4 @@ import Dtr.Props.C14
 #print axioms Dtr.C14_spare_store_invariant
 #print axioms Dtr.C14_zx_is_error
 #print axioms Dtr.C14_index_is_virtual
+#print axioms Dtr.C14_spare_store_behind_error
